@@ -20,6 +20,12 @@ PLANS = {
                 gen=[G("roundtrip", 600, 20000, "TraceCursor", "TraceCursor.cfg")]),
     "C02": dict(level="model_checking", assumptions=TRUST,
                 gen=[G("seeks", 64, 2000, "TraceCursor", "TraceCursor.cfg")]),
+    "C09": dict(level="model_checking", assumptions=TRUST + ["independent decoder: sequential walk, codec crates, LEB128 framing parser"],
+                gen=[G("format", 400, 12000, "TraceLayout", "TraceLayout_C09.cfg")]),
+    "C15": dict(level="model_checking", assumptions=TRUST + ["independent decoder: sequential walk, codec crates, LEB128 framing parser"],
+                gen=[G("cut", 300, 10000, "TraceLayout", "TraceLayout_C15.cfg")]),
+    "C18": dict(level="model_checking", assumptions=TRUST + ["independent decoder: sequential walk, codec crates, LEB128 framing parser"],
+                gen=[G("unsorted", 1200, 40000, "TraceLayout", "TraceLayout_C18.cfg")]),
     "C03": dict(level="model_checking", assumptions=TRUST,
                 gen=[G("history", 160, 6000, "TraceCursor", "TraceCursor.cfg")]),
 }
